@@ -30,10 +30,16 @@ Fixpoint traj_close (rt at_ : float) (a b : list (list float)) : bool :=
   | x :: r, y :: s => vclose rt at_ x y && traj_close rt at_ r s
   | _, _ => false
   end.
+(* stage arguments: the entries of one state vector are compared with an absolute tolerance proportional to the
+   LARGEST entry of that vector (a step size that differs by 1e-11 relative - the pow of the controller is computed
+   differently - moves every entry by |f| dt, which is not small relative to an entry that happens to be near zero) *)
+Definition vmaxabs (v : list float) : float :=
+  fold_left (fun m x => if PrimFloat.ltb m (PrimFloat.abs x) then PrimFloat.abs x else m) v 0%float.
 Fixpoint calls_close (rt at_ : float) (a b : list (float * list float)) : bool :=
   match a, b with
   | [], [] => true
-  | (t, x) :: r, (u, y) :: s => fclose rt at_ t u && vclose rt at_ x y && calls_close rt at_ r s
+  | (t, x) :: r, (u, y) :: s =>
+      fclose rt at_ t u && vclose rt (PrimFloat.add at_ (PrimFloat.mul rt (vmaxabs y))) x y && calls_close rt at_ r s
   | _, _ => false
   end.
 
